@@ -13,7 +13,8 @@ RULE = ("records as in C02 with 4 replacement strings per input drawn from the $
         "scanner's alphabet $ { } 0 1 2 3 n m & ` ' + _ x, predicted by ParseRepl/Expand in six contexts (dense, named, sparse explicit numbers, RightToLeft, RE2, "
         "ExplicitCapture) and compared with the real Replace (rule replace.language). non-trivial = chains of >= 2 matches / strings containing $")
 STREAM = 400
-QUICK = [("frag", ["-n", "500", "-rtl", "both", "-repl", "4"]), ("wide", ["-n", "600", "-profile", "wide", "-rtl", "both", "-repl", "4"])]
+QUICK = [("frag", ["-n", "500", "-rtl", "both", "-repl", "4"]), ("wide", ["-n", "600", "-profile", "wide", "-rtl", "both", "-repl", "4"]),
+         ("sparse", ["-n", "200", "-profile", "sparse", "-rtl", "both", "-repl", "4"]), ("bal", ["-n", "200", "-profile", "balancing", "-rtl", "both", "-repl", "4"])]
 THOROUGH = [("frag%d" % i, ["-n", "1500", "-rtl", "both", "-repl", "4"]) for i in range(3)] + [("wide%d" % i, ["-n", "2000", "-profile", "wide", "-rtl", "both", "-repl", "4", "-maxlen", "14"]) for i in range(4)]
 PROP = "C09"
 
